@@ -37,7 +37,7 @@ type C16Scenario struct {
 	Net     verifsimnet.Profile `json:"net"`
 }
 
-var c16Fields = []string{"", "h1", "100", " 99", "7", "x.log", "text", "WARN something", "ERROR|bad", "FATAL", "WARNING", "a|b", "é", "\x1b[31mred\x1b[0m", "\x1b[", "%s%d", " ", "REMOTE", "100\n", "\t"}
+var c16Fields = []string{"", "h1", "100", " 99", "7", "x.log", "text", "WARN something", "ERROR|bad", "FATAL", "WARNING", "a|b", "é", "  WARN indented", "\tERROR after a tab", " FATAL", "   ", "x\tWARN", "\x1b[31mred\x1b[0m", "\x1b[", "%s%d", " ", "REMOTE", "100\n", "\t"}
 
 // genC16Message generates one server message. An ESC byte that does not start
 // a complete SGR sequence is replaced: "the coloured rendering with its escape
@@ -86,7 +86,12 @@ func genC16MessageRaw(r *Rand) []byte {
 	case 6:
 		return []byte(PickOf(r, ".", ".hidden", ".syn", ".syn close", ".ack close connection", "..", ".\n"))
 	case 7: // well-formed aggregate
-		return []byte(fmt.Sprintf("AGGREGATE|srv|G%d∥%d∥count(x)≔%d∥sum(x)≔%d.5∥last(y)≔v∥", r.Intn(3), 1+r.Intn(9), r.Intn(50), r.Intn(50)))
+		key := fmt.Sprintf("G%d", r.Intn(3))
+		if r.Bool(0.4) {
+			// group keys and string values wider/narrower in bytes than in runes
+			key = PickOf(r, "müller", "žižek", "日本", "a-very-long-group-key-wider-than-the-header", "-5", "é")
+		}
+		return []byte(fmt.Sprintf("AGGREGATE|srv|%s∥%d∥count(x)≔%d∥sum(x)≔%d.5∥last(y)≔%s∥", key, 1+r.Intn(9), r.Intn(50), r.Intn(50), PickOf(r, "v", "v", "größer", "-1.5", "日本語のログ")))
 	case 8: // malformed aggregates
 		return []byte(PickOf(r, "AGGREGATE", "AGGREGATE|", "AGGREGATE|srv", "AGGREGATE|srv|", "AGGREGATE|srv|k", "AGGREGATE|srv|k∥", "AGGREGATE|srv|k∥x∥count(x)≔1∥",
 			"AGGREGATE|srv|k∥3∥", "AGGREGATE|srv|k∥3∥count(x)∥", "AGGREGATE|srv|k∥3∥≔∥", "AGGREGATE|srv|k∥3∥count(x)≔notanumber∥", "AGGREGATE|srv|k∥-1∥count(x)≔1∥",
